@@ -43,8 +43,11 @@
 // fmt.Fprintf/Fprint/Fprintln on it, its Write* methods) that is reached with the builder AT A LINE
 // START (or in an unknown line state) and does not begin with an I(k) prefix; every use of the
 // builder other than those writes and passing it on to a function of the package (`sb-escape`);
-// writes of a function that owns its builder are `root-write`; a call of such a function from a
-// function that has the builder, depth or indent is `nested-root`.  The line state (start / mid-line)
+// writes of a function that owns its builder are `root-write`; a call of such a function from any
+// function of the package is `nested-root`, unless the callee is a LINE ROOT: a value-returning
+// function that renders into its own builder and hands out nothing but the text before the first
+// "\n" (`line, _, _ := strings.Cut(sb.String(), "\n"); return line`, see isLineRoot) -- its result is
+// a newline-free string depending on the data only, i.e. ordinary label data.  The line state (start / mid-line)
 // is tracked through the statements of each function; a function is summarised as start->start
 // (it writes whole lines) or mid->mid (it writes a fragment of the current line), and a call is
 // checked against the summary of its callee.  A constant format with a "\n" in the middle is split
@@ -111,7 +114,7 @@ type Fn struct {
 	HasSink   bool   `json:"has_sink"`
 	HasIndent bool   `json:"has_indent"`
 	HasDepth  bool   `json:"has_depth"`
-	Summary   string `json:"summary"` // start | mid | none (no sink) | root (owns its builder)
+	Summary   string `json:"summary"` // start | mid | none (no sink) | root (owns its builder) | line-root (root that hands out its first line only)
 	Skew      int    `json:"skew"`    // the function is called with indent == strings.Repeat(" ", depth+skew)
 	SkewKey   string `json:"skew_key,omitempty"`
 	Where     string `json:"where"`
@@ -439,6 +442,9 @@ type fnInfo struct {
 	owns    []*types.Var // local strings.Builder variables whose address is passed to a sink function
 	summary lineState    // stStart or stMid (pre == post); meaningful when sink != nil
 	skew    int          // precondition of a function with both parameters: indent == spaces(depth+skew)
+	// lineRoot: the function owns its builder and hands out NOTHING of it but the text before the
+	// first "\n" (see isLineRoot): its result is a newline-free string that depends on the data only
+	lineRoot bool
 }
 
 type analysis struct {
@@ -1604,24 +1610,154 @@ func (fa *fnAnalysis) classifyPairs() {
 	})
 }
 
-// checkNestedRoots reports calls, from a function that takes part in printing (it has the builder,
-// depth or indent), of a function that owns an output builder of its own (Explain,
-// ExplainStatements): the text of such a nested rendering starts at depth 0 whatever the depth of
-// the caller, and could only be inserted as data.
+// checkNestedRoots reports calls, from ANY function of the package, of a function that owns an
+// output builder of its own (Explain, ExplainStatements): the text of such a nested rendering
+// starts at depth 0 whatever the depth of the caller and has several lines; it could only reach the
+// caller's output as data, where every line after the first would be a line of the caller's text
+// that no depth shifts.  (Reported for value-returning callers too: their result may be inserted
+// by a printing function.)  A LINE ROOT (isLineRoot) is not reported: what it returns is a string
+// without "\n" that depends on the data only -- an ordinary piece of a label.  Where the caller
+// writes it is checked like any other data by the line-state pass (text at a line start that is
+// not an indent prefix is a raw-write).
 func (fa *fnAnalysis) checkNestedRoots() {
-	if fa.fi.sink == nil && fa.fi.depth == nil && fa.fi.indent == nil {
-		return
-	}
 	ast.Inspect(fa.fi.decl.Body, func(n ast.Node) bool {
 		call, ok := n.(*ast.CallExpr)
 		if !ok {
 			return true
 		}
-		if cal := fa.a.calleeOf(call); cal != nil && len(cal.owns) > 0 {
-			fa.raw(call, "nested-root", stUnknown, cal.name+" renders into a builder of its own, starting at depth 0")
+		if cal := fa.a.calleeOf(call); cal != nil && len(cal.owns) > 0 && !cal.lineRoot {
+			fa.raw(call, "nested-root", stUnknown, cal.name+" renders into a builder of its own, starting at depth 0, and hands out more than its first line")
 		}
 		return true
 	})
+}
+
+// isLineRoot recognises the one shape in which a nested rendering is harmless:
+//
+//	func f(data...) string {            no builder, depth or indent parameter
+//		...
+//		var sb strings.Builder            exactly one owned builder
+//		Node(&sb, x, 0)                   handed to functions of the package (root calls, checked as pairs)
+//		line, _, _ := strings.Cut(sb.String(), "\n")     the ONLY other use of sb
+//		return line                       every result is `line` or a constant without "\n"
+//	}
+//
+// strings.Cut returns the text before the first separator (the whole text if there is none), so
+// `line` contains no "\n" whatever was rendered; f has no depth/indent parameter, so `line` is a
+// function of the data alone.
+func (fa *fnAnalysis) isLineRoot() bool {
+	fi := fa.fi
+	if fi.sink != nil || fi.depth != nil || fi.indent != nil || len(fi.owns) == 0 {
+		return false
+	}
+	own := fi.owns[0]
+	for _, o := range fi.owns {
+		if o != own {
+			return false
+		}
+	}
+	var line *types.Var
+	ok := true
+	ast.Inspect(fi.decl.Body, func(n ast.Node) bool {
+		if _, isLit := n.(*ast.FuncLit); isLit {
+			ok = false // keep it simple: no function literals in a line root
+			return false
+		}
+		id, isId := n.(*ast.Ident)
+		if !isId || fa.info().Uses[id] != own {
+			return true
+		}
+		// &sb as the builder argument of a function of the package
+		if u, isU := fa.parents[id].(*ast.UnaryExpr); isU && u.Op == token.AND {
+			if call, isCall := fa.parents[u].(*ast.CallExpr); isCall {
+				if cal := fa.a.calleeOf(call); cal != nil && cal.sink != nil {
+					sig := cal.obj.Type().(*types.Signature)
+					for i, arg := range call.Args {
+						if arg == u && i < sig.Params().Len() && sig.Params().At(i) == cal.sink {
+							return true
+						}
+					}
+				}
+			}
+			ok = false
+			return true
+		}
+		// sb.String() as the first argument of strings.Cut(., "\n") in `line, _, _ := ...`
+		sel, isSel := fa.parents[id].(*ast.SelectorExpr)
+		if !isSel || sel.X != id || sel.Sel.Name != "String" {
+			ok = false
+			return true
+		}
+		strCall, isCall := fa.parents[sel].(*ast.CallExpr)
+		if !isCall || strCall.Fun != sel {
+			ok = false
+			return true
+		}
+		cut, isCut := fa.parents[strCall].(*ast.CallExpr)
+		if !isCut || fa.a.stdCall(cut) != "strings.Cut" || len(cut.Args) != 2 || cut.Args[0] != strCall {
+			ok = false
+			return true
+		}
+		if sep, isConst := fa.constString(cut.Args[1]); !isConst || sep != "\n" {
+			ok = false
+			return true
+		}
+		asg, isAsg := fa.parents[cut].(*ast.AssignStmt)
+		if !isAsg || len(asg.Lhs) != 3 || len(asg.Rhs) != 1 || line != nil {
+			ok = false
+			return true
+		}
+		blank := func(e ast.Expr) bool { b, isB := e.(*ast.Ident); return isB && b.Name == "_" }
+		if !blank(asg.Lhs[1]) || !blank(asg.Lhs[2]) {
+			ok = false
+			return true
+		}
+		if line = fa.varOf(asg.Lhs[0]); line == nil {
+			ok = false
+		}
+		return true
+	})
+	if !ok || line == nil {
+		return false
+	}
+	// `line` is assigned once (by the Cut) and every result is `line` or a newline-free constant
+	ast.Inspect(fi.decl.Body, func(n ast.Node) bool {
+		switch x := n.(type) {
+		case *ast.AssignStmt:
+			for _, l := range x.Lhs {
+				if fa.varOf(l) == line {
+					if c, isCall := x.Rhs[0].(*ast.CallExpr); !isCall || len(x.Rhs) != 1 || fa.a.stdCall(c) != "strings.Cut" {
+						ok = false
+					}
+				}
+			}
+		case *ast.IncDecStmt:
+			if fa.varOf(x.X) == line {
+				ok = false
+			}
+		case *ast.UnaryExpr:
+			if x.Op == token.AND && fa.varOf(x.X) == line {
+				ok = false
+			}
+		case *ast.ReturnStmt:
+			if len(x.Results) != 1 {
+				ok = false
+				break
+			}
+			if fa.varOf(x.Results[0]) == line {
+				break
+			}
+			if c, isConst := fa.constString(x.Results[0]); !isConst || strings.Contains(c, "\n") {
+				ok = false
+			}
+		}
+		return true
+	})
+	sig := fi.obj.Type().(*types.Signature)
+	if sig.Results().Len() != 1 {
+		return false
+	}
+	return ok
 }
 
 // checkSinkUses reports every use of the builder parameter that is not a recognised write or a
@@ -1703,6 +1839,9 @@ func (a *analysis) run() {
 		fa.buildParents()
 		fa.findOwned()
 		fas[fi] = fa
+	}
+	for _, fi := range a.order {
+		fi.lineRoot = fas[fi].isLineRoot()
 	}
 	// skews: a function with both parameters is analysed under the precondition
 	// indent == spaces(depth + skew); skew is what ALL its call sites pass (0 if they disagree, and
@@ -1803,6 +1942,9 @@ func (a *analysis) run() {
 		}
 		if len(fi.owns) > 0 {
 			summary = "root"
+			if fi.lineRoot {
+				summary = "line-root"
+			}
 		}
 		ws, preserving := fa.runLineState(entry)
 		if (fi.sink != nil || len(fi.owns) > 0) && !preserving {
